@@ -654,6 +654,18 @@ func (s *S) Check(c *scen.Ctx, res *simrt.Result) {
 		}
 		return
 	}
+	// While every endpoint is blocked calls go to endpoints picked at random, blocked ones
+	// included, and which of those calls used up a queued probe cannot be told from outside.
+	// The spacing of probes is therefore judged only when the rotation has not been empty
+	// during the 35s before the later probe (one probe interval plus the scheduling slack).
+	recentlyEmpty := func(t time.Duration) bool {
+		for _, o := range ob {
+			if o.t <= t && o.t >= t-35*time.Second && len(o.active) == 0 {
+				return true
+			}
+		}
+		return false
+	}
 	maxGap := time.Duration(0)
 	for i := 1; i < len(s.calls); i++ {
 		if g := s.calls[i].t0 - s.calls[i-1].t0; g > maxGap {
@@ -726,10 +738,10 @@ func (s *S) Check(c *scen.Ctx, res *simrt.Result) {
 			othersActive := len(cr.activeAt) > 0 && len(cr.activeT1) > 0
 			if isProbe && othersActive {
 				// a call to an endpoint outside the rotation while others are in it is a probe
-				if lastProbe < 0 && outSince >= 0 && cr.t0-outSince < 29*time.Second-maxGap-500*time.Millisecond && cr.t0 > outSince+2*time.Second {
+				if lastProbe < 0 && outSince >= 0 && cr.t0-outSince < 29*time.Second-maxGap-500*time.Millisecond && cr.t0 > outSince+2*time.Second && !recentlyEmpty(cr.t0) {
 					c.Fail(s.propID(), "probe-too-soon", "checkActive", "endpoint %s was seen out of rotation at %v and was called again at %v, only %v later, while other endpoints were in rotation: a blocked endpoint is probed no more often than every 30s", n.host, outSince, cr.t0, cr.t0-outSince)
 				}
-				if lastProbe >= 0 && cr.t0-lastProbe < 29*time.Second-maxGap {
+				if lastProbe >= 0 && cr.t0-lastProbe < 29*time.Second-maxGap && !recentlyEmpty(cr.t0) {
 					c.Fail(s.propID(), "probe-too-often", "checkActive", "blocked endpoint %s was called at %v and again at %v (%v apart) while other endpoints were in rotation: more often than every 30s", n.host, lastProbe, cr.t0, cr.t0-lastProbe)
 				}
 				lastProbe = cr.t0
